@@ -6,7 +6,12 @@ pub(crate) fn leap_years(mut year: i32) -> u32 {
     if year.is_negative() {
         year += 1;
     }
-    let year_abs = year.abs();
+    // For years before year 1, count the leap years after the given year (year -1 included)
+    let year_abs = if year.is_negative() {
+        year.abs() - 1
+    } else {
+        year.abs()
+    };
     let mut leaps = year_abs / 4 - year_abs / 100 + year_abs / 400;
     if year.is_negative() {
         leaps += 1;
